@@ -490,7 +490,7 @@ pub fn many_threads_at_once<C: Send + Sync + 'static>(cases: Vec<C>, rounds: usi
     // shipped formats and their permuted-vocabulary copies: 18 enum vocabularies, re-folded lexical values,
     // a hash), so that whatever the library shares between formats - a table cache with a handful of
     // slots, an interner - is being refilled by somebody else while the workers depend on it
-    const NOISE: usize = 4;
+    const NOISE: usize = 6;
     // (a flag, not a Barrier: a thread that could not be started must not leave the others waiting for ever)
     let barrier = Arc::new(AtomicBool::new(false));
     let done = Arc::new(AtomicBool::new(false));
